@@ -235,6 +235,56 @@ static void timed_wait_wake()
     pmc_outcome("resumed=%d", s.resumed);
 }
 
+// The waiter is a plain OS thread (pika facilities block such a thread through the default agent: std::mutex and
+// two condition variables; resume() waits until the waiter has really gone to sleep).  The wake-up is issued in the
+// window in which the waiter has released the internal lock but has not suspended yet; timed waits inside the
+// agent (there are none on the unchanged tree) are deadlines the explorer may let pass.
+template <int NOTIFIER_TASK>
+static void os_waiter()
+{
+    static St s;
+    s = St{};
+    s.nwaiters = 1;
+    g = &s;
+    spin_t& mtx = *new spin_t;
+    auto& cond = *new pika::detail::condition_variable;
+    pmc_watch(&mtx, sizeof mtx, "lock");
+    pmc_watch(&cond, sizeof cond, "cond");
+    pmc_focus_pthread(1);
+    pmc_on_stuck(on_stuck);
+    std::thread w([&] {
+        pmc_watch(&pika::execution::this_thread::detail::agent().ref(), 192, "waiter's default agent");
+        std::unique_lock<spin_t> l(mtx);
+        ++s.registered;
+        cond.wait(l);
+        ++s.resumed;
+        pmc_progress();
+        l.unlock();
+        ++s.finished;
+    });
+    int woken = 0, guard = 0;
+    while (!woken && ++guard < 300)
+    {
+        {
+            std::unique_lock<spin_t> l(mtx);
+            if (!cond.empty(l))
+            {
+                cond.notify_one(std::move(l));
+                ++woken;
+                ++s.issued;
+                pmc_progress();
+                continue;
+            }
+        }
+        sched_yield();
+    }
+    PMC_ASSERT(woken == 1, "harness", "waker never saw the waiter registered");
+    w.join();
+    pmc_focus_pthread(0);
+    PMC_ASSERT(s.resumed == 1, "lost-wakeup", "the OS-thread waiter did not resume after its wake-up was issued");
+    pmc_outcome("resumed=%d", s.resumed);
+}
+
 int main(int argc, char** argv)
 {
     static const char* sites = "set_thread_state|set_active_state|execution_agent::do_(yield|resume)|detail::condition_variable::(wait|notify_one)|create_work|scheduling_loop.hpp:(9[0-9]|1[01][0-9])";
@@ -249,6 +299,7 @@ int main(int argc, char** argv)
         {"two_wakers_signal_abort", two_wakers<0>, 2, 3, 0.2, 0.2, 1, focus, sites, "src"},
         {"two_wakers_signal_abort_ext", two_wakers<1>, 2, 3, 0.15, 0.15, 1, focus, sites, "src"},
         {"interrupt_only", two_wakers<0, 0>, 2, 3, 0.1, 0.1, 1, focus, sites, "src"},
+        {"os_thread_waiter", os_waiter<0>, 2, 3, 0.05, 0.05, 1, "F-addr: internal lock, condition_variable, the waiter's default agent (its mutex and condition variables; timed waits on them are deadlines); all pthread operations are points", sites, "src"},
         {"interrupt_only_ext", two_wakers<1, 0>, 2, 3, 0.1, 0.1, 1, focus, sites, "src"},
     };
     static const char* assumptions[] = {"sequentially consistent interleavings only", "2 worker threads", "fairness: a thread that spins (same failed operation, or 4000 atomic operations without a switch) is descheduled, i.e. the helper-task retry chain is cut by weak fairness"};
